@@ -12,6 +12,7 @@ Tie and monitors (the theorems are in coq/theories/Props/C16.v):
     producers/pump, and a multi-thread stress with exactly-once / order monitors.
 """
 import ast
+from unittest import mock
 import logging
 import os
 import sys
@@ -530,10 +531,27 @@ def make_queue_sched(lists, pump_iters):
             return run
 
         def pump():
+            # the REAL poll loop SyncTasks._poll_queue, bounded from outside: the stop event is set after
+            # `pump_iters` calls of run_job or idle sleeps (time.sleep of task.py is replaced by a counter)
+            import mysensors.task as task_mod
+            count = [0, 0]
+            real_run_job = tasks.run_job
+
+            def run_job(*a, **k):
+                count[0] += 1
+                if count[0] >= pump_iters:
+                    tasks._stop_event.set()
+                return real_run_job(*a, **k)
+
+            def fake_sleep(_secs):        # safety bound for loops that do not go through run_job
+                count[1] += 1
+                if count[1] >= 3 * pump_iters:
+                    tasks._stop_event.set()
+
+            tasks.run_job = run_job
             try:
-                for _ in range(pump_iters):  # body of SyncTasks._poll_queue
-                    reply = tasks.run_job()
-                    transport.send(reply)
+                with mock.patch.object(task_mod.time, "sleep", fake_sleep):
+                    tasks._poll_queue()
             except BaseException as exc:
                 out["exc"] = exc
 
